@@ -627,6 +627,17 @@ func (a *Adversary) newView(s *ByzSpec) {
 		return
 	}
 	have := map[string]bool{}
+	if par(s, 0) == 4 && h > 1 { // genuine votes of the PREVIOUS height (any view there), byte for byte, under a NEW_VIEW of this height
+		seen := map[string]bool{}
+		for _, o := range w.Seen {
+			if o.Meta.Union == UVC && o.Meta.H == h-1 && !seen[o.Meta.Sender] {
+				seen[o.Meta.Sender] = true
+				have[o.Meta.Sender] = true
+				votes = append(votes, VoteOf(protocol.LeanhelixContentReader(o.Raw.Content).ViewChangeMessage()))
+				voteBlocks = append(voteBlocks, nil)
+			}
+		}
+	}
 	if mode != 2 {
 		gv, gb := a.seenVotes(h, v)
 		for i := range gv {
@@ -737,6 +748,12 @@ func (a *Adversary) newView(s *ByzSpec) {
 		hash = a.block(h, par(s, 2)+1).Hash()
 	case 2:
 		ppv = v + 1
+	}
+	if par(s, 3) == 5 { // the signed proposal names the chosen (e.g. proven) hash, but ANOTHER block object is attached to the message
+		blk = a.block(h, par(s, 2)+1)
+		if blk.Hash().Equal(hash) {
+			blk = a.block(h, par(s, 2)+2)
+		}
 	}
 	a.instOff = hdrOff
 	ppr := a.ref(TPP, h, ppv, hash)
